@@ -106,11 +106,12 @@ ADDED = {
     "C09": " Also: (d) the NumPy/numba and the JAX implementation of the Gaussian density-matrix recurrence have the same normal form (pivot, initial term, loop summands, divisor).",
     "C11": " Also: the seed of every privately constructed generator is traced to a read of the seed_sequence property; no object shared by the shots of a dask region (bound by partial, free variable of the per-shot closure) is written in place by the per-shot callable; the jobs of the native permanent tile the Gray-code range exactly for every job count (S(0)=0, E(K-1)=M-1, S(j+1)=E(j)+1, proved by case split over the comparisons).",
     "C13": " Also: the preparation-order validator may only test isinstance(., Preparation) (closed world).",
+    "C14": " Also: (c) every GaussianState constructed inside the library receives the config of the state it is derived from (hbar lives there); (d) ordering tags xpxp/xxpp: the index maps are applied to quantities of the source ordering, sums and products combine one ordering, ordering-named getters/setters return/receive that ordering.",
     "C15": " Also: (c) each Givens step of the Clements sweep nulls one element of the addressed pair for the angles _get_angles returns, symbolically for every non-zero pivot and with the degenerate arm's constants for a zero pivot.",
     "C16": " Also: a fullness test by length, or any test over order-insensitive aggregates of the mode tuple (len/min/max/sum/set) that substitutes a value ignoring the tuple; the complement of the complement; outcome projections that run in parallel with the mode tuple.",
     "C18": " Also: every use of an operand's raw amplitude map in __add__ is weighted by that operand's coefficient.",
     "C19": " Also: no one-sided skip guard around emitted instructions; no sorted/set image of a gate's qubit operands; no bit resolved by its position in an instruction's own operand list.",
-    "C20": " Also: the whitelist is closed under subclassing (it is applied with isinstance) and every admitted operator class is a key of the table _eval uses; no comparator of a chained comparison is evaluated before the earlier links are tested.",
+    "C20": " Also: the whitelist is closed under subclassing (it is applied with isinstance) and every admitted operator class is a key of the table _eval uses; no comparator of a chained comparison is evaluated before the earlier links are tested; an evaluated slice bound is never used as a truth value; the value of a condition is consumed by truthiness only (never compared with True).",
 }
 
 # properties whose check is built AND clean on the current tree (exit 0); others stay under not_applicable until then
